@@ -228,6 +228,19 @@ fn api_attr_from_term(t: &Term) -> Option<api::Attribute> {
             }
             A::AsPath(api::AsPathAttribute { segments: v })
         }
+        "mp-reach" => {
+            // (mp-reach none|(AFI SAFI) (ASTR..)): afi / safi are the u32 bit patterns of the i32 fields
+            let x = t.tagged("mp-reach")?;
+            let family = match x.first()? {
+                f if f.as_atom() == Some("none") => None,
+                f => {
+                    let l = f.as_list()?;
+                    Some(api::Family { afi: as_u32(l.first()?)? as i32, safi: as_u32(l.get(1)?)? as i32 })
+                }
+            };
+            let nhs: Option<Vec<String>> = x.get(1)?.as_list()?.iter().map(astr_to_string).collect();
+            A::MpReach(api::MpReachNlriAttribute { family, next_hops: nhs?, nlris: vec![] })
+        }
         "next-hop" => A::NextHop(api::NextHopAttribute { next_hop: astr_to_string(t.tagged("next-hop")?.first()?)? }),
         "med" => A::MultiExitDisc(api::MultiExitDiscAttribute { med: as_u32(t.tagged("med")?.first()?)? }),
         "local-pref" => A::LocalPref(api::LocalPrefAttribute { local_pref: as_u32(t.tagged("local-pref")?.first()?)? }),
@@ -1085,6 +1098,21 @@ fn accepted_attr_ok(a: &Attribute, sent: Option<&api::Attribute>) -> String {
     if use_t(a).1 {
         return x_fail("accepted-value-crashes-consumer");
     }
+    // what is accepted satisfies the decoder's invariants: received from a peer, the same value is stored
+    // (MP_REACH / MP_UNREACH are consumed by the UPDATE parser, never stored)
+    if let Some(b) = a.binary()
+        && a.code() != Attribute::MP_REACH
+        && a.code() != Attribute::MP_UNREACH
+        && (b.len() <= 255 || a.flags() & 0x10 != 0)
+    {
+        let (code, flags, b2, a2) = (a.code(), a.flags(), b.clone(), a.clone());
+        match guard(move || decode_attr(code, flags, &b2)) {
+            Out::Ok(Decoded::Stored(d)) if d == a2 => {}
+            Out::Ok(Decoded::Stored(_)) => return x_fail("accepted-value-reads-back-different"),
+            Out::Ok(_) => return x_fail("accepted-value-not-decodable"),
+            _ => return x_fail("decoder-panics-on-accepted"),
+        }
+    }
     let api = match guard(|| convert::attr_to_api(a)) {
         Out::Ok(x) => x,
         _ => return x_fail("to-api-panics-on-accepted"),
@@ -1116,6 +1144,19 @@ fn accepted_nlri_ok(n: &Nlri, family: Family) -> String {
     }
     if matches!(use_cmp(&[origin_igp(), base_as_path()], family, n), Out::Panic) {
         return x_fail("accepted-value-crashes-table-insert");
+    }
+    // what is accepted satisfies the decoder's invariants: its wire form is read back as the same value
+    let bytes = match guard(|| n.encode_to_bytes()) {
+        Out::Ok(b) => b,
+        _ => Vec::new(),
+    };
+    if !bytes.is_empty() {
+        match decode_nlris(family, &bytes) {
+            Out::Ok(v) if v.len() == 1 && &v[0].nlri == n => {}
+            Out::Ok(_) => return x_fail("accepted-value-reads-back-different"),
+            Out::Err => return x_fail("accepted-value-not-decodable"),
+            Out::Panic => return x_fail("decoder-panics-on-accepted"),
+        }
     }
     let api = match guard(|| convert::nlri_to_api(n)) {
         Out::Ok(x) => x,
@@ -1153,7 +1194,16 @@ fn explore_api(kind: &str, a: &[u64], strs: &[String], bytes: &[u8]) -> String {
     };
     let nlri_case = |x: N, family: Family| -> String {
         match guard_res(move || convert::net_from_api(api::Nlri { nlri: Some(x) }, family)) {
-            Out::Ok(v) => accepted_nlri_ok(&v, family),
+            // (a plain prefix is converted whatever the family: that it belongs to the family of the path is
+            // local_path's check, driven by `api-path-family`; here it is judged under its own family)
+            Out::Ok(v) => {
+                let own = match &v {
+                    Nlri::V4(_) if family != Family::IPV4 && family != Family::IPV4_MC => Family::IPV4,
+                    Nlri::V6(_) if family != Family::IPV6 && family != Family::IPV6_MC => Family::IPV6,
+                    _ => family,
+                };
+                accepted_nlri_ok(&v, own)
+            }
             Out::Err => "(x ok)".into(),
             Out::Panic => x_fail("from-api-panics"),
         }
@@ -1174,6 +1224,20 @@ fn explore_api(kind: &str, a: &[u64], strs: &[String], bytes: &[u8]) -> String {
                 };
                 if let (N::LsAddrPrefix(a), N::LsAddrPrefix(b)) = (&mut shown, &sent) {
                     a.length = b.length;
+                }
+                // the end-of-list bit and the length bits of a FlowSpec operator describe the encoding (they follow
+                // from the position in the list and from the value): compared without them
+                let mut sent = sent;
+                for n in [&mut shown, &mut sent] {
+                    if let N::FlowSpec(f) = n {
+                        for r in &mut f.rules {
+                            if let Some(api::flow_spec_rule::Rule::Component(c)) = &mut r.rule {
+                                for i in &mut c.items {
+                                    i.op &= 0b0100_1111;
+                                }
+                            }
+                        }
+                    }
                 }
                 if shown != sent { x_fail("listed-differs-from-added") } else { r }
             }
@@ -1315,12 +1379,70 @@ fn explore_api(kind: &str, a: &[u64], strs: &[String], bytes: &[u8]) -> String {
                         })),
                         rule(R::Component(api::FlowSpecComponent {
                             r#type: 3,
-                            items: vec![api::FlowSpecComponentItem { op: g(4) as u32, value: 6 }],
+                            // the given operator octet on 1 item (or on the number of items given as 6th number)
+                            items: (0..if a.len() > 5 { g(5) % 4 } else { 1 })
+                                .map(|i| api::FlowSpecComponentItem { op: g(4) as u32, value: 6 + i * 300 })
+                                .collect(),
                         })),
                     ],
                 }),
                 Family::new(g(0) as u16, g(1) as u8),
             )
+        }
+        // the family of a request (Path.family / ListPathRequest.family) wider than the wire: refused, or the path
+        // is stored under another family than the one given
+        "api-path-family" => {
+            let t = Term::parse("(prefix (ip4 167772160) 8)").unwrap();
+            let (afi, safi) = (g(0) as u32, g(1) as u32);
+            match run_grpc_family(&t, &[], &[], false, Some((afi as i32, safi as i32))) {
+                Some(r) if r == "(grpc panic)" => x_fail("add-or-list-path-panics"),
+                Some(r) if r != "(grpc add-refused)" && (afi > 65535 || safi > 255) => x_fail("stored-under-another-family"),
+                // an IPv4 prefix is an NLRI of IPv4 unicast / multicast only
+                Some(r) if r != "(grpc add-refused)" && !(afi == 1 && (safi == 1 || safi == 2)) => {
+                    x_fail("stored-under-a-family-of-another-kind")
+                }
+                _ => "(x ok)".into(),
+            }
+        }
+        // policy converters: what is accepted is what was given
+        "api-afi-safi-in" => {
+            let c = api::Conditions {
+                afi_safi_in: vec![api::Family { afi: g(0) as u32 as i32, safi: g(1) as u32 as i32 }],
+                rpki_result: api::ValidationState::None as i32,
+                ..Default::default()
+            };
+            match guard_res(move || convert::conditions_from_api(Some(c))) {
+                Out::Ok(v) => {
+                    let want = (g(0), g(1));
+                    let same = v.iter().all(|c| match c {
+                        table::ConditionConfig::AfiSafiIn(fs) => fs.iter().all(|f| (f.afi() as u64, f.safi() as u64) == want),
+                        _ => true,
+                    });
+                    if same { "(x ok)".into() } else { x_fail("stored-differs-from-added") }
+                }
+                Out::Err => "(x ok)".into(),
+                Out::Panic => x_fail("from-api-panics"),
+            }
+        }
+        "api-prefix-set" => {
+            let set = api::DefinedSet {
+                defined_type: api::DefinedType::Prefix as i32,
+                name: "ps".to_string(),
+                list: vec![],
+                prefixes: vec![api::Prefix { ip_prefix: "10.0.0.0/8".to_string(), mask_length_min: g(0) as u32, mask_length_max: g(1) as u32 }],
+            };
+            match guard_res(move || convert::defined_set_from_api(set)) {
+                Out::Ok(table::DefinedSetConfig::Prefix { prefixes, .. }) => {
+                    if prefixes.iter().all(|p| (p.mask_length_min as u64, p.mask_length_max as u64) == (g(0), g(1))) {
+                        "(x ok)".into()
+                    } else {
+                        x_fail("stored-differs-from-added")
+                    }
+                }
+                Out::Ok(_) => "(x ok)".into(),
+                Out::Err => "(x ok)".into(),
+                Out::Panic => x_fail("from-api-panics"),
+            }
         }
         "api-prefix-sid" => attr_case(A::PrefixSid(api::PrefixSid {
             tlvs: (0..g(0) % 3).map(|_| api::prefix_sid::Tlv { tlv: None }).collect(),
@@ -1415,10 +1537,24 @@ fn family_of_api_nlri(t: &Term) -> Option<(i32, i32)> {
 /// One path through `GoBgpService::add_path` (=> `local_path`, `TableManager::insert_route`) and back through
 /// `GoBgpService::list_path` (=> `collect_paths`, `destination_to_api`) on a fresh daemon state.
 fn run_grpc(nlri_t: &Term, attrs_t: &[Term], vrps: &[(u32, u8, u8, u32)], vrf: bool) -> Option<String> {
+    run_grpc_family(nlri_t, attrs_t, vrps, vrf, None)
+}
+
+/// `run_grpc` with the `Path.family` / `ListPathRequest.family` given instead of derived from the NLRI kind
+fn run_grpc_family(
+    nlri_t: &Term,
+    attrs_t: &[Term],
+    vrps: &[(u32, u8, u8, u32)],
+    vrf: bool,
+    family: Option<(i32, i32)>,
+) -> Option<String> {
     let nlri = api_nlri_from_term(nlri_t)?;
     let pattrs: Option<Vec<api::Attribute>> = attrs_t.iter().map(api_attr_from_term).collect();
     let pattrs = pattrs?;
-    let (afi, safi) = family_of_api_nlri(nlri_t)?;
+    let (afi, safi) = match family {
+        Some(f) => f,
+        None => family_of_api_nlri(nlri_t)?,
+    };
     let rt = tokio::runtime::Builder::new_current_thread().enable_all().build().ok()?;
     let out = guard(|| {
         rt.block_on(async move {
